@@ -29,7 +29,7 @@ type UserSpec struct {
 	Elem    string   `json:"elem"`              // element type for generic instantiations ("int", "string", "float64", "lib.Base", "[]int")
 }
 
-var stmtKinds = []string{"toany", "asnamer", "boxembed", "mix", "alias", "peek", "outer", "mid", "inner", "outerbox", "midbox", "map", "sum", "box", "apply", "pair", "iface", "ptriface", "embiface", "bound", "thunk", "mexpr", "seq", "chain", "dep", "nested", "recur", "boxmethodval"}
+var stmtKinds = []string{"toany", "asnamer", "boxembed", "mix", "alias", "peek", "outer", "mid", "inner", "outerbox", "midbox", "map", "sum", "box", "apply", "pair", "iface", "ptriface", "embiface", "bound", "thunk", "mexpr", "seq", "chain", "dep", "nested", "recur", "boxmethodval", "boundlog", "boundconn"}
 
 const baseSrc = `package base
 
@@ -135,6 +135,26 @@ func (o *Other) Reset() { o.S = "" }
 
 func (o Other) hidden() int { return len(o.S) }
 
+// Log.Append and Conn.Send have identical signature types and different
+// parameter and result names (as do the Put methods of the user packages).
+type Log struct{ n int }
+
+func (l *Log) Append(rec []byte) (n int, err error) {
+	l.n += len(rec)
+	return l.n, nil
+}
+
+type Conn struct{ n int }
+
+func (c *Conn) Send(frame []byte) (written int, failure error) {
+	c.n += len(frame)
+	return c.n, nil
+}
+
+type Putter interface {
+	Put(data []byte) (count int, problem error)
+}
+
 type Titler interface{ Title() string }
 
 type Namer interface{ Name() string }
@@ -209,6 +229,7 @@ func (ps *ProgSpec) sources() map[string]string {
 		E := u.Elem
 		z := zeroOf(E)
 		numeric := E == "int" || E == "float64"
+		w("type Local struct{ n int }\n\nfunc (l *Local) Put(buf%d []byte) (cnt%d int, e%d error) {\n\tl.n += len(buf%d)\n\treturn l.n, nil\n}\n\ntype EmbLocal struct{ *Local }\n\n", i, i, i, i)
 		w("var Sink []any\n\n")
 		for k, s := range u.Stmts {
 			w("func F%d() {\n", k)
@@ -276,6 +297,10 @@ func (ps *ProgSpec) sources() map[string]string {
 				w("\tSink = append(Sink, lib.Nest(%s, 2), lib.Nest(lib.MkPair(%s, %s), 1))\n", z, z, z)
 			case "recur":
 				w("\tvar f func(int) int\n\tf = func(n int) int {\n\t\tif n == 0 {\n\t\t\treturn lib.Id(0)\n\t\t}\n\t\treturn f(n-1) + lib.Sum([]int{n})\n\t}\n\tSink = append(Sink, f(3))\n")
+			case "boundlog":
+				w("\tl := &lib.Log{}\n\ta := l.Append\n\tloc := &Local{}\n\tp := loc.Put\n\tq := (*Local).Put\n\tvar i lib.Putter = EmbLocal{loc}\n\tr := i.Put\n\tSink = append(Sink, a, p, q, r)\n")
+			case "boundconn":
+				w("\tc := &lib.Conn{}\n\ts := c.Send\n\tt := (*lib.Conn).Send\n\tloc := EmbLocal{&Local{}}\n\tp := loc.Put\n\tSink = append(Sink, s, t, p)\n")
 			case "boxmethodval":
 				w("\tb := &lib.Box[%s]{V: %s}\n\tget := b.Get\n\twith := lib.Box[%s].With\n\tSink = append(Sink, get(), with(*b, %s))\n", E, z, E, z)
 			}
